@@ -3,6 +3,8 @@ import PycModel.Lexer
 import PycModel.Parser.Stmt
 import PycModel.Generator
 import PycModel.Spec.Expr
+import PycModel.Spec.Decl
+import PycModel.Spec.Stmt
 import PycModel.Generated.LexTables
 /-! Model driver: one request per line on stdin, one response per line on stdout. -/
 open PycModel PycModel.Proto
@@ -65,6 +67,53 @@ def handle (line : String) : String :=
         let d := if (s1 / 65536) % 3 == 0 then [] else Spec.randDeco e.nodes s1
         go n (Spec.lcg s1) (Spec.mkCase e d ((s1 / 7) % 10) :: acc)
     let cases := go count.toNat! (Spec.lcg (seed.toNat! + 1)) []
+    "\t".intercalate (cases.map fun (t, d) => rec [t, d])
+  | ["c03", "enum", len, lo, hi] =>
+    -- every derivation sequence of the given length over the small alphabet x every context
+    let all := (Spec.seqs Spec.derivAlphabetSmall len.toNat!).toArray
+    let hi' := min hi.toNat! all.size
+    let idxs := (List.range (hi' - lo.toNat!)).map (· + lo.toNat!)
+    let cases := idxs.flatMap fun i =>
+      let ds := all[i]!
+      let b := Spec.bases[i % Spec.bases.length]!
+      Spec.DCtx.all.filterMap fun ctx =>
+        if ctx.abstract && !(ds.all Spec.Deriv.plain) then none
+        else
+          let nm := if ctx.abstract then none else some "x"
+          some (Spec.declCase b (Spec.ofDerivs nm ds) ctx)
+    toString all.size ++ "\t" ++ "\t".intercalate (cases.map fun (t, d) => rec [t, d])
+  | ["c03", "rand", seed, count, maxlen] =>
+    let rec go3 : Nat → Nat → List (String × String) → List (String × String)
+      | 0, _, acc => acc.reverse
+      | n+1, s, acc =>
+        let len := (s / 65536) % (maxlen.toNat! + 1)
+        let rec mk : Nat → Nat → List Spec.Deriv → List Spec.Deriv × Nat
+          | 0, s, ds => (ds, s)
+          | k+1, s, ds => mk k (Spec.lcg s) (Spec.pick Spec.derivAlphabet s :: ds)
+        let (ds, s1) := mk len (Spec.lcg s) []
+        let ctx := Spec.pick Spec.DCtx.all s1
+        let b := Spec.pick Spec.bases (Spec.lcg s1)
+        let s2 := Spec.lcg (Spec.lcg s1)
+        if ctx.abstract && !(ds.all Spec.Deriv.plain) then go3 n s2 acc
+        else
+          let nm := if ctx.abstract then none else some (Spec.pick ["x", "y1", "zz"] s2)
+          go3 n (Spec.lcg s2) (Spec.declCase b (Spec.ofDerivs nm ds) ctx :: acc)
+    let cases := go3 count.toNat! (Spec.lcg (seed.toNat! + 7)) []
+    "\t".intercalate (cases.map fun (t, d) => rec [t, d])
+  | ["c05", "enum", na, nw, depth, lo, hi] =>
+    let all := (Spec.enumStmt na.toNat! nw.toNat! depth.toNat!).toArray
+    let hi' := min hi.toNat! all.size
+    let idxs := (List.range (hi' - lo.toNat!)).map (· + lo.toNat!)
+    let cases := idxs.map fun i => Spec.stmtCase [all[i]!]
+    toString all.size ++ "\t" ++ "\t".intercalate (cases.map fun (t, d) => rec [t, d])
+  | ["c05", "rand", seed, count, depth] =>
+    let rec go5 : Nat → Nat → List (String × String) → List (String × String)
+      | 0, _, acc => acc.reverse
+      | n+1, s, acc =>
+        let r1 := Spec.randStmt depth.toNat! true s
+        let r2 := Spec.randStmt depth.toNat! true r1.2
+        go5 n (Spec.lcg r2.2) (Spec.stmtCase [r1.1, r2.1] :: acc)
+    let cases := go5 count.toNat! (Spec.lcg (seed.toNat! + 11)) []
     "\t".intercalate (cases.map fun (t, d) => rec [t, d])
   | op :: _ => "BADOP " ++ op
   | [] => "BADOP"
